@@ -1092,6 +1092,85 @@ def gamma_overflow(name, n):
     return (n / 2. + (1 if name == "ball" else 0)) > 171.62
 
 
+def rft_hermite(ck, rft):
+    """rft._hermitenorm_coeffs (and Q(dim) for dfd = inf, which wraps it): exact comparison with the Coq model hermitenorm_coeffs
+    (theorems hermitenorm_coeffs_three_term_recurrence / _degree_monic_parity) and with the explicit formula
+    He_n = sum_k (-1)^k n! / (k! (n-2k)! 2^k) x^(n-2k) (independent of the recurrence).  Two executions of the current code:
+    the function as imported (float64 result: exact while every coefficient is below 2^53) and its source text executed with
+    `np.array` replaced by `list`, which exposes the exact Python-int vector for every n."""
+    import inspect
+    nmax = ck.n(60, 160)
+
+    def explicit(n):
+        out = [0] * (n + 1)
+        for k in range(n // 2 + 1):
+            out[2 * k] = (-1) ** k * (math.factorial(n) // (math.factorial(k) * math.factorial(n - 2 * k) * 2 ** k))
+        return out
+
+    exact_fn = None
+    try:
+        class _NP:
+            float64 = None
+            array = staticmethod(lambda b, dtype=None: list(b))
+        ns = {"np": _NP}
+        exec(compile(inspect.getsource(rft._hermitenorm_coeffs), "<rft._hermitenorm_coeffs>", "exec"), ns)
+        exact_fn = ns["_hermitenorm_coeffs"]
+    except Exception as e:  # noqa
+        ck.fail("rft-hermite/source-exec", "cannot execute the source of rft._hermitenorm_coeffs with np.array -> list (fail-closed): %r" % e,
+                {"kind": "correspondence-broken", "error": repr(e)}, found_input=False)
+    terms, meta = [], []
+    n_exact = n_float = 0
+    for n in range(0, nmax + 1):
+        ref = explicit(n)
+        want = [float(v) for v in ref]
+        ck.count(("herm", n), bucket="rft:hermitenorm-coeffs")
+        try:
+            got = np.asarray(rft._hermitenorm_coeffs(n))
+            q = rft.Q(n + 1).c
+        except Exception as e:  # noqa
+            ck.fail("rft-hermite/raises", "_hermitenorm_coeffs(%d) / Q(%d) raised %r" % (n, n + 1, e), {"n": n})
+            continue
+        feat = "n<=1" if n <= 1 else "loop"
+        if got.dtype != np.float64 or got.shape != (n + 1,) or got.tolist() != want:
+            ck.fail("rft-hermite/value/%s" % feat, "_hermitenorm_coeffs(%d) = %s (dtype %s); exact He_%d coefficients (explicit formula) are %s"
+                    % (n, got.tolist(), got.dtype, n, ref), {"n": n, "got": got.tolist(), "want": [str(v) for v in ref]})
+        if np.asarray(q).tolist() != want:
+            ck.fail("rft-hermite/Q-inf/%s" % feat, "Q(%d).c = %s for dfd = inf; He_%d coefficients are %s" % (n + 1, np.asarray(q).tolist(), n, ref),
+                    {"dim": n + 1, "got": np.asarray(q).tolist(), "want": [str(v) for v in ref]})
+        if got.ndim == 1 and all(np.isfinite(v) and float(v) == int(v) and abs(v) < 2.0 ** 53 for v in got.tolist()):
+            terms.append("Harness.zlist_eqb (hermitenorm_coeffs %s) %s" % (cnat(n), czl([int(v) for v in got.tolist()])))
+            meta.append(("imported", n, [int(v) for v in got.tolist()]))
+            n_float += 1
+        if exact_fn is not None:
+            try:
+                ex = exact_fn(n)
+                ex = [v for v in ex]
+                if not all(isinstance(v, int) and not isinstance(v, bool) for v in ex):
+                    raise TypeError("non-int coefficient in %r" % (ex[:4],))
+            except Exception as e:  # noqa
+                ck.fail("rft-hermite/source-exec", "source of _hermitenorm_coeffs executed with np.array -> list fails at n = %d: %r" % (n, e),
+                        {"n": n, "error": repr(e)})
+                continue
+            if ex != ref:
+                ck.fail("rft-hermite/exact-value/%s" % feat, "source of _hermitenorm_coeffs (exact ints) at n = %d gives %s; He_%d coefficients are %s"
+                        % (n, ex, n, ref), {"n": n, "got": [str(v) for v in ex], "want": [str(v) for v in ref]})
+            terms.append("Harness.zlist_eqb (hermitenorm_coeffs %s) %s" % (cnat(n), czl(ex)))
+            meta.append(("source", n, ex))
+            n_exact += 1
+        if n in (0, 1, 6):
+            ck.sample({"kind": "hermitenorm_coeffs", "n": n, "impl": got.tolist(), "explicit_formula": ref})
+    if ck.build.ok:
+        res = ck.coq_bools(HDR, terms, name="hermite")
+        ck.cov["traces_validated_against_impl"] += len(res)
+        for ok, mt in zip(res, meta):
+            if not ok:
+                ck.fail("rft-hermite/model-vs-impl", "_hermitenorm_coeffs(%d) (%s) = %s differs from the Coq model hermitenorm_coeffs %d"
+                        % (mt[1], mt[0], mt[2], mt[1]), {"n": mt[1], "which": mt[0], "impl": [str(v) for v in mt[2]],
+                                                           "model": ck.coq_show(HDR, "hermitenorm_coeffs %s" % cnat(mt[1]))})
+                break
+    ck.section("rft-hermite", n_max=nmax, model_terms=len(terms), imported_float_exact=n_float, source_exact_int=n_exact)
+
+
 def rft_helpers(ck, rft):
     """binomial, mu_sphere / spherical_search, mu_ball / ball_search, volume2ball against independent exact / log-space formulas,
     for arguments from 0 up to the hundreds; ECquasi argument validation."""
@@ -1372,3 +1451,4 @@ def run(ck):
     rft_repeat(ck, rft)
     rft_reference(ck, rft)
     rft_helpers(ck, rft)
+    rft_hermite(ck, rft)
